@@ -180,7 +180,7 @@ Ltac safe_intro unf :=
   | |- _ => idtac
   end;
   destruct s as [sbool scode sexec sfloat sindex sint sname sbvec sfvec sivec sinput soutput sgraph sbind scfg squote ssend];
-  destruct W as [Wint Wivec Windex Wcode Wexec Wbind Winput Woutput Wgraphs];
+  destruct W as [Wint Wivec Windex Wcode Wexec Wbind Winput Woutput Wgraphs Wcfg];
   unfold envelope in E; st_cbn_all;
   unf.
 Ltac safe_body unf := safe_intro unf; split_goal_matches; wf_leaf.
